@@ -50,6 +50,13 @@ static void witness(const vstr *d, const vstr *n) {
 
 void h_nm_core(void) { BODY(nm_core) }
 void h_nm_scaffold(void) { BODY(nm_scaffold) }
+void h_nm_forward(void) {
+  vstr d = nondet_vstr(), n = nondet_vstr();
+  witness(&d, &n);
+  bool a = nm_forward(n, d), b = nm_core(d, n);
+  __CPROVER_assert(0, "CANARY returns");
+  __CPROVER_assert(a == b, "O_forward: InterpreterImpl::isMatched(event, descriptors) is nameMatch(descriptors, event.name) - arguments in this order, nothing added");
+}
 void h_nm_same(void) {
   vstr d = nondet_vstr(), n = nondet_vstr();
   witness(&d, &n);
